@@ -209,7 +209,8 @@ def fmt(t):
             body = "; ".join(ast.unparse(x) for x in t[2].body)
         except Exception:
             body = "?"
-        return "<def %s: %s>" % (t[1], body)
+        return "<def: %s>" % body      # (the nested function's name is
+        #                                   not behaviour)
     return repr(t)
 
 
@@ -358,7 +359,8 @@ class Interp:
 
     def __init__(self, fi, program, inline=None, loop_policy=None,
                  noreturn=None, assume=None, max_inline=3, bind=None,
-                 try_raises=True, extra_pure=(), self_class=None):
+                 try_raises=True, extra_pure=(), self_class=None,
+                 exact_loops=False):
         self.fi = fi
         self.P = program
         self.m = program.model
@@ -373,6 +375,10 @@ class Interp:
         # the class of the receiver when a method is analysed for a
         # particular (sub)class: its class-level constants fold
         self.self_class = self_class
+        # bounded-exact reading of loops: a path with one (two) rounds of a
+        # loop stands for a run over exactly one (two) elements, so lists
+        # built inside keep their exact contents
+        self.exact_loops = exact_loops
         from . import excflow
         self._noreturn = noreturn or (
             lambda f, call: excflow.is_noreturn_call(self.P, f, call))
@@ -986,9 +992,10 @@ class Interp:
             else:
                 res = into
             first_it = self.eval(node.generators[0].iter, env2)
-            exact = len(node.generators) == 1 and first_it[0] in (
-                "tuple", "list") and len(first_it[1]) <= 4 \
-                and not self.loop_depth
+            twice = self.loop_policy(node) == "twice"
+            exact = len(node.generators) == 1 and (
+                (first_it[0] in ("tuple", "list") and len(first_it[1]) <= 4
+                 and not self.loop_depth) or self.exact_loops)
             if res[0] == "newlist":
                 if exact and (into is None or self.path.builders.get(
                         res[1]) is not None):
@@ -1021,6 +1028,8 @@ class Interp:
                     rep = True
                 else:
                     elems = [("elem", it)]
+                    if twice and self.decide(("loop", "second", it)):
+                        elems.append(("elem2", it))
                     self.path.effects.append(("loop-enter", node.lineno, it,
                                               node))
                     rep = True
@@ -1255,7 +1264,8 @@ class Interp:
             # every mutation is one we model and happens outside a loop
             b = self.path.builders
             n = ft[1][1]
-            if b[n] is not None and not self.loop_depth and not kws:
+            if b[n] is not None and (not self.loop_depth
+                                     or self.exact_loops) and not kws:
                 if ft[2] == "append" and len(args) == 1:
                     b[n] = b[n] + [args[0]]
                 elif ft[2] == "extend" and len(args) == 1 \
@@ -1369,6 +1379,18 @@ class Interp:
         if ft == ("global", "builtins.str") and len(args) == 1 \
                 and is_const(args[0]) and isinstance(args[0][1], str):
             return args[0]
+        if ft in (("global", "builtins.all"), ("global", "builtins.any")) \
+                and len(args) == 1 and not kws:
+            seq = None
+            if args[0][0] == "newlist" and self.path.builders.get(
+                    args[0][1]) is not None:
+                seq = self.path.builders[args[0][1]]
+            elif args[0][0] in ("list", "tuple"):
+                seq = list(args[0][1])
+            if seq is not None:
+                if ft[1].endswith("all"):
+                    return const(all(self.term_truth(x) for x in seq))
+                return const(any(self.term_truth(x) for x in seq))
         if ft == ("global", "builtins.int") and len(args) == 1 and not kws \
                 and is_const(args[0]) and isinstance(args[0][1], (bool, int)):
             return const(int(args[0][1]))
